@@ -388,9 +388,14 @@ class FileStoreRequestTlv(FileStoreRequestBase, AbstractTlvBase):
 
     @classmethod
     def unpack(cls, data: bytes) -> FileStoreRequestTlv:
+        if len(data) < 2:
+            raise BytesTooShortError(2, len(data))
         cls._check_raw_tlv_field(data[0], FileStoreRequestTlv.TLV_TYPE)
+        value_len = data[1]
+        if 2 + value_len > len(data):
+            raise BytesTooShortError(2 + value_len, len(data))
         filestore_req = cls.__empty()
-        cls._set_fields(filestore_req, data[2:])
+        cls._set_fields(filestore_req, data[2 : 2 + value_len])
         return filestore_req
 
     @classmethod
@@ -470,9 +475,14 @@ class FileStoreResponseTlv(FileStoreRequestBase, AbstractTlvBase):
 
     @classmethod
     def unpack(cls, data: bytes) -> FileStoreResponseTlv:
+        if len(data) < 2:
+            raise BytesTooShortError(2, len(data))
         cls._check_raw_tlv_field(data[0], FileStoreResponseTlv.TLV_TYPE)
+        value_len = data[1]
+        if 2 + value_len > len(data):
+            raise BytesTooShortError(2 + value_len, len(data))
         filestore_reply = cls.__empty()
-        cls._set_fields(filestore_reply, data[2:])
+        cls._set_fields(filestore_reply, data[2 : 2 + value_len])
         return filestore_reply
 
     @classmethod
